@@ -125,10 +125,63 @@ fn compare(f: &QDLDLFactorisation<f64>, exp: &Value, n: usize, pattern: Option<&
     None
 }
 
+/// raw encodings (QdldlRaw.tla): any dimensions, positions below the diagonal, columns stored in either order
+fn replay_raw(b: &Value) -> Option<String> {
+    let rows = b["rows"].as_u64().unwrap() as usize;
+    let cols = b["cols"].as_u64().unwrap() as usize;
+    let (mut colptr, mut rowval, mut nzval) = (vec![0usize], vec![], vec![]);
+    let mut dense = vec![vec![0.0f64; cols.max(rows)]; cols.max(rows)];
+    let mut all_diag = true;
+    for j in 0..cols {
+        let col = b["colrows"][j].as_array().unwrap();
+        let mut has_diag = false;
+        for r in col {
+            let i = r.as_u64().unwrap() as usize - 1;
+            let v = if i == j { 4.0 } else { 1.0 };
+            rowval.push(i);
+            nzval.push(v);
+            if i == j { has_diag = true; }
+            if i <= j { dense[i][j] = v; dense[j][i] = v; }
+        }
+        all_diag &= has_diag;
+        colptr.push(rowval.len());
+    }
+    // built field by field: the constructor would insist on a canonical encoding
+    let A = CscMatrix { m: rows, n: cols, colptr, rowval, nzval };
+    let mut builder = QDLDLSettingsBuilder::<f64>::default();
+    builder.perm((0..cols).collect()).regularize_enable(false);
+    let want = b["err"].as_str().unwrap();
+    match QDLDLFactorisation::new(&A, Some(builder.build().unwrap())) {
+        Err(e) => {
+            let got = errname(&e);
+            if want != "none" { if got != want { return Some(format!("raw input: engine error {} but model expects {}", got, want)); } return None; }
+            // a structurally valid input may still have a zero pivot (absent diagonal entries), nothing else
+            if got != "ZeroPivot" || all_diag { return Some(format!("raw input: structurally valid input rejected with {}", got)); }
+            None
+        }
+        Ok(mut f) => {
+            if want != "none" { return Some(format!("raw input: engine returned Ok, model expects {}", want)); }
+            if all_diag {
+                let n = cols;
+                let mut x: Vec<f64> = (0..n).map(|i| (i + 1) as f64).collect();
+                f.solve(&mut x);
+                for i in 0..n {
+                    let ax: f64 = (0..n).map(|j| dense[i][j] * x[j]).sum();
+                    if (ax - (i + 1) as f64).abs() > 1e-12 * (1.0 + (i + 1) as f64) {
+                        return Some(format!("raw input (columns stored {}): solve does not reproduce b: (A x)[{}] = {}", b["order"], i, ax));
+                    }
+                }
+            }
+            None
+        }
+    }
+}
+
 pub fn replay_one(b: &Value) -> Option<String> {
     let n = b["n"].as_u64().unwrap() as usize;
     let kind = b["kind"].as_str().unwrap();
     let res = catch_unwind(AssertUnwindSafe(|| -> Option<String> {
+        if kind == "raw" { return replay_raw(b); }
         if kind == "new" {
             let A = build(&b["A"], n);
             let exp = &b["expect"];
